@@ -534,7 +534,16 @@ inductive F where
   | plus (a b : F)               -- explicit `a + b`
   deriving Repr
 
-def digitsOf (n : Nat) : Str := (toString n).toList
+def digitChar (d : Nat) : Char := Char.ofNat (48 + d)
+
+/-- decimal digits of `n`, most significant first (own definition: same text as `toString n`,
+    with an easy induction principle) -/
+def digitsAux : Nat → Nat → Str → Str
+  | 0, _, acc => acc
+  | fuel + 1, n, acc =>
+    if n < 10 then digitChar n :: acc else digitsAux fuel (n / 10) (digitChar (n % 10) :: acc)
+
+def digitsOf (n : Nat) : Str := digitsAux (n + 1) n []
 
 def render : F → Str
   | .sp s => s
@@ -543,6 +552,16 @@ def render : F → Str
   | .group f => '(' :: render f ++ [')']
   | .seq ws a b => render a ++ List.replicate ws ' ' ++ render b
   | .plus a b => render a ++ symAdd ++ render b
+
+/-- the same formula in the explicit solver notation: every juxtaposition written ` + `, every
+    count written ` * n`, no optional blanks — what `preprocess` is meant to produce -/
+def renderExplicit : F → Str
+  | .sp s => s
+  | .count f n => renderExplicit f ++ symMul ++ digitsOf n
+  | .mulx f n => renderExplicit f ++ symMul ++ digitsOf n
+  | .group f => '(' :: renderExplicit f ++ [')']
+  | .seq _ a b => renderExplicit a ++ symAdd ++ renderExplicit b
+  | .plus a b => renderExplicit a ++ symAdd ++ renderExplicit b
 
 /-- the number of times species `k` occurs in the expanded formula -/
 def expandCount (k : Str) : F → Nat
@@ -574,6 +593,33 @@ def evalF {α : Type} [Add α] [Mul α] [NatCast α] : F → Comps α
   | .group f => evalF f
   | .seq _ a b => cplus (evalF a) (evalF b)
   | .plus a b => cplus (evalF a) (evalF b)
+
+/-! ## Well-formed formulas of the documented notation -/
+
+/-- a count applies to a species or a parenthesised group; an explicit ` * n` ends its term -/
+def F.endsOpen : F → Bool
+  | .mulx _ _ => true
+  | .seq _ _ b => b.endsOpen
+  | .plus _ b => b.endsOpen
+  | _ => false
+
+def F.wf : F → Bool
+  | .sp s => !s.isEmpty
+  | .count (.sp s) n => !s.isEmpty && decide (1 ≤ n)
+  | .count (.group f) n => f.wf && decide (1 ≤ n)
+  | .count _ _ => false
+  | .mulx (.sp s) n => !s.isEmpty && decide (1 ≤ n)
+  | .mulx (.group f) n => f.wf && decide (1 ≤ n)
+  | .mulx _ _ => false
+  | .group f => f.wf
+  | .seq _ a b => a.wf && b.wf && !a.endsOpen
+  | .plus a b => a.wf && b.wf
+
+/-- a species text is one match of the species pattern with a single capital, no count -/
+def isSpeciesText (k : Str) : Bool :=
+  match matchP k with
+  | some (run, _, _, dg, rest) => decide (run ≤ 1) && dg.isEmpty && rest.isEmpty
+  | none => false
 
 /-! ## Totals -/
 
